@@ -173,13 +173,31 @@ func (sw *sweeper) reach(a Analysis) (map[*ssa.Function]bool, []string) {
 					}
 					switch x := (*op).(type) {
 					case *ssa.Function:
+						if skip, _ := a.Extra["skip_operator_closures"].(bool); skip && x.Parent() != nil {
+							if opT := sw.p.SSA.Type("Operator"); opT != nil && types.Identical(x.Signature, opT.Type().Underlying()) {
+								continue
+							}
+						}
 						push(x)
 					case *ssa.MakeClosure:
+						if skip, _ := a.Extra["skip_operator_closures"].(bool); skip {
+							if opT := sw.p.SSA.Type("Operator"); opT != nil && types.Identical(x.Fn.(*ssa.Function).Signature, opT.Type().Underlying()) {
+								continue
+							}
+						}
 						push(x.Fn.(*ssa.Function))
 					}
 				}
 				if mc, ok := ins.(*ssa.MakeClosure); ok {
-					push(mc.Fn.(*ssa.Function))
+					cf := mc.Fn.(*ssa.Function)
+					if skip, _ := a.Extra["skip_operator_closures"].(bool); skip {
+						// a closure of the Operator type that is merely created (stored into a node) does not run here;
+						// it could only run through a call of an Operator value, which is what the analysis inventories
+						if opT := sw.p.SSA.Type("Operator"); opT != nil && types.Identical(cf.Signature, opT.Type().Underlying()) {
+							continue
+						}
+					}
+					push(cf)
 				}
 			}
 		}
